@@ -4,7 +4,12 @@
     Proved here, on the evaluator model (tied to eval.rs on every run): consistently renaming
     the bound identifiers of a whole program (parameters and rec binders, any injective
     renaming) changes nothing in the evaluation: same relations, same reference table, same
-    error or panic ([C05_alpha_evaluation]).
+    error or panic ([C05_alpha_evaluation]). Parentheses are free in evaluation: removing every
+    parenthesis node from a whole program leaves every result unchanged ([C05_paren_strip]);
+    two programs that differ only in where parentheses stand end alike whenever both end
+    ([C05_parentheses_are_free]); and adding parentheses never makes an evaluation that ends
+    run out: fuel [n * (d + 1) + d] suffices, [d] the deepest nest of parentheses
+    ([C05_parenthesised_program_evaluates]). Both semantics (the code's and the lexical one).
     Proved here (partial), for every syntax tree and environment: parenthesising a
     sub-expression and renaming identifiers by any injective renaming leave the binding
     relation computed by name resolution unchanged (hence acceptance by the resolver and the
@@ -14,7 +19,7 @@
     rewrite engine of the check (monitor O05) on generated programs; two annotation-related
     exceptions are recorded as known findings (K13, K15). *)
 From Oal Require Import Resolve ResolveProofs RewriteProofs.
-From Oal Require Eval EvalProofs.
+From Oal Require Eval EvalProofs FuelProofs ParenProofs.
 
 Theorem C05_paren_resolution_partial : forall en t, lex en (RNode [t]) = lex en t.
 Proof. exact paren_resolution. Qed.
@@ -54,3 +59,31 @@ Proof. exact EvalProofs.ex_rename_changes_tree. Qed.
 
 Example C05_injective_renaming_exists : forall a b : N, N.succ a = N.succ b -> a = b.
 Proof. exact N.succ_inj. Qed.
+
+(** parentheses: stripping them all changes no result *)
+Theorem C05_paren_strip : forall lx P n rs,
+  FuelProofs.lef (Eval.eval_program lx P n rs)
+                 (Eval.eval_program lx (ParenProofs.strip_prog P) n (map ParenProofs.strip rs)).
+Proof. exact ParenProofs.eval_program_strip. Qed.
+Print Assumptions C05_paren_strip.
+
+Theorem C05_parentheses_are_free : forall lx P1 P2 rs1 rs2 n1 n2,
+  ParenProofs.strip_prog P1 = ParenProofs.strip_prog P2 -> map ParenProofs.strip rs1 = map ParenProofs.strip rs2 ->
+  Eval.eval_program lx P1 n1 rs1 <> Eval.Fuel -> Eval.eval_program lx P2 n2 rs2 <> Eval.Fuel ->
+  Eval.eval_program lx P1 n1 rs1 = Eval.eval_program lx P2 n2 rs2.
+Proof. exact ParenProofs.parentheses_are_free. Qed.
+Print Assumptions C05_parentheses_are_free.
+
+Theorem C05_parenthesised_program_evaluates : forall lx P1 P2 rs1 rs2 n r d,
+  ParenProofs.strip_prog P1 = ParenProofs.strip_prog P2 -> map ParenProofs.strip rs1 = map ParenProofs.strip rs2 ->
+  (ParenProofs.pd_prog P2 <= d)%nat -> (forall x, In x rs2 -> (ParenProofs.pd x <= d)%nat) ->
+  Eval.eval_program lx P1 n rs1 = r -> r <> Eval.Fuel ->
+  Eval.eval_program lx P2 (n * S d + d) rs2 = r.
+Proof. exact ParenProofs.parenthesised_program_evaluates. Qed.
+Print Assumptions C05_parenthesised_program_evaluates.
+
+Example C05_parentheses_nonvacuous :
+  ParenProofs.strip_prog ParenProofs.ex_paren_P <> ParenProofs.ex_paren_P /\ ParenProofs.pd_prog ParenProofs.ex_paren_P = 2%nat /\
+  exists r, Eval.eval_program false ParenProofs.ex_paren_P 50 ParenProofs.ex_paren_rs = Eval.Ok r /\
+            Eval.eval_program false (ParenProofs.strip_prog ParenProofs.ex_paren_P) 50 (map ParenProofs.strip ParenProofs.ex_paren_rs) = Eval.Ok r.
+Proof. exact ParenProofs.ex_parentheses. Qed.
